@@ -15,7 +15,9 @@
  *   C05    paranoid_checks: a reader-reported corruption / failed insert is
  *          the returned status and stops the replay; otherwise it is skipped
  *          and the replay continues; a failed table write always fails
- *   C12    env failures (log open, table write, size, append-open)
+ *   C12    env failures: a log that cannot be opened fails the replay (never
+ *          skipped: finding F3, fixed), a failed table write is returned, a
+ *          failed size/append-open falls back to writing the memtable out
  *
  * See recover_world.h for the models.
  */
@@ -87,16 +89,11 @@ harness(void) {
     /* the log could not be opened */
     VP_ASSERT(g_ins_calls == 0 && g_builds == 0 && mems_created == 0 && db->mem == NULL && max_sequence == max0,
               "unopened log: nothing replayed");
-    if (paranoid) {
-      VP_ASSERT(rc != LDB_OK, "paranoid: failure to open a log fails recovery");
-      VP_WITNESS("log-open-failed-paranoid");
-    } else {
-#if VP_STRICT_LOGOPEN
-      VP_ASSERT(rc != LDB_OK, "KF:F3-log-open-failure-ignored a log that cannot be opened is not silently skipped (its records would be lost)");
-#endif
-      if (rc == LDB_OK)
-        VP_WITNESS("log-open-failed-ignored");
-    }
+    VP_ASSERT(rc != LDB_OK && rc == g_logopen_rc, "C12 a log that could not be opened is never treated as recovered: the error is returned, paranoid or not");
+    if (paranoid)
+      VP_WITNESS("log-open-failed-error-returned-paranoid");
+    else
+      VP_WITNESS("log-open-failed-error-returned");
     return;
   }
 
